@@ -209,8 +209,9 @@ func (s *controllingSelector) HandleSuccessResponse(
 		// If it's a standard nomination (no value), only set if no pair is selected yet
 		if value := pendingRequest.nominationValue; value != nil {
 			// Responses can overtake each other: a late response to an older renomination
-			// must not move the selection away from a newer one (last nomination wins).
-			if s.lastConfirmedNomination != nil && *value < *s.lastConfirmedNomination {
+			// must not move the selection away from a newer one (last nomination wins). An
+			// equal value is stale as well: the controlled side refuses it.
+			if s.lastConfirmedNomination != nil && *value <= *s.lastConfirmedNomination {
 				s.log.Debugf("Ignoring stale renomination success response for pair %s (nomination value: %d)", pair, *value)
 			} else {
 				s.log.Infof("Renomination success response received for pair %s (nomination value: %d), switching to this pair",
